@@ -1438,7 +1438,7 @@ func (self *Analyzer) matchExpression(node pAst.MatchExpression) ast.AnalyzedMat
 		for _, lit := range arm.Literals {
 			if !lit.IsLiteral() {
 				defaultArmSpan = &arm.Range
-				action := self.expression(arm.Action)
+				// the action was analyzed above: a second analysis doubles its diagnostics (and the work, per nesting level)
 				defaultArm = &action
 				containsDefault = true
 			}
